@@ -1,5 +1,6 @@
 import Driver.Util
 import SsoModel.Proxy
+import SsoModel.AuthN
 import SsoSpec.Lemmas.Proxy
 open Lean
 
@@ -153,6 +154,7 @@ def checkCase (j : Json) : Except String Verdict := do
   let mut clock : Int := 0
   let mut chainLifetime : List (String × Int) := []
   let mut vdHist : List (String × Int) := []       -- host ↦ (time of the login or of the last passed revalidation) + V
+  let mut epFresh : List String := []                -- hosts for which the chain is known to have no outage episode open (login, or a confirmed check)
   let mut episode : List (String × Int) := []      -- host ↦ absolute time of the first outage-served check of the current episode
   let mut pageStructure : List (Nat × String) := []      -- status ↦ structure (the template branches on the code only)
   for st in steps do
@@ -247,6 +249,8 @@ def checkCase (j : Json) : Except String Verdict := do
     let iwrites := (jarr out "writes").toOption.getD #[]
     v := v.cmp idx "cookie.writes" (Json.arr (ex.writes.map writeJson).toArray).compress (Json.arr iwrites).compress ["C01", "C04", "C05", "C06", "C19"]
     v := v.cmp idx "authenticator.calls" ex.calls (strs out "calls") ["C01", "C04", "C05", "C08"]
+    -- the CSRF cookie is used up exactly by a callback that set a session (`pJarStep`): a failed callback leaves it
+    if ex.branch.startsWith "cb/" then v := v.cmp idx "csrf.usedUpIffLogin" ex.csrfCleared (boolD out "csrfCleared") ["C06"]
     let iup := getJ out "upstream"
     match ex.upstream, mUp with
     | some id, some u =>
@@ -263,6 +267,9 @@ def checkCase (j : Json) : Except String Verdict := do
     else if ex.locKind == "sign_out" then
       let slug := match mUp with | some u => (if u.slug != "" then u.slug else defaultSlug) | none => ""
       v := v.cmp idx "location.sign_out" (true, s!"/{slug}/sign_out") (boolD loc "toAuthenticator", strD loc "path") ["C19", "C13"]
+      -- the return address is the model's: scheme://<request Host>/ (`proxySignOut`), signed with the time of the request
+      let link := (Sso.AuthN.proxySignOut secure host 0).2
+      v := v.cmp idx "signout.returnAddress" link.redirectURI (strD loc "redirect_uri") ["C19", "C07"]
     else if ex.locKind == "clean" then
       v := v.cmp idx "location.clean" ex.locPath (strD loc "path") ["C06"]
     else if ex.locKind == "flow" then
@@ -367,21 +374,32 @@ def checkCase (j : Json) : Except String Verdict := do
             -- answer) lets the session through — one successful check has ended any earlier episode
             if kind == "outage" && !reached && ttlG > 0 && requestValidators lower P s then
               let inside := match episode.find? (·.1 == host) with
-                | none => true
+                | none => epFresh.contains host          -- known fresh; an unknown past (a broken chain) proves nothing
                 | some (_, t0) => clock + 2 < t0 + ttlG
               if inside then
                 v := v.mon "C05" "outage_within_grace_refused" idx s!"episode {(episode.find? (·.1 == host)).map (·.2)}, now {clock}, grace TTL {ttlG}, status {status}"
             if kind == "outage" && reached then
+              epFresh := epFresh.filter (· != host)
               match episode.find? (·.1 == host) with
               | none => episode := (host, clock) :: episode
               | some (_, t0) =>
                 if !(clock < t0 + ttlG) then
                   v := v.mons ["C05", "C04", "C01"] "grace_outlives_ttl_from_first_failure" idx s!"first outage answer at {t0}, served on another at {clock}, grace TTL {ttlG}"
-            else if kind != "none" then episode := episode.filter (·.1 != host)
-          else episode := episode.filter (·.1 != host)
-        | none => episode := episode.filter (·.1 != host)
+            else if kind != "none" then
+              episode := episode.filter (·.1 != host)
+              epFresh := epFresh.filter (· != host)
+              if kind == "confirmed" && reached then epFresh := host :: epFresh
+          else
+            episode := episode.filter (·.1 != host)
+            epFresh := epFresh.filter (· != host)
+        | none =>
+          episode := episode.filter (·.1 != host)
+          epFresh := epFresh.filter (· != host)
       else if handlerOf (strD ora "escapedPath") == "OAuthCallback" || strD presented "kind" != "jar" || !linear then
         episode := episode.filter (·.1 != host)
+        epFresh := epFresh.filter (· != host)
+        if handlerOf (strD ora "escapedPath") == "OAuthCallback" && ((jarr out "writes").toOption.getD #[]).toList.any (fun w => (sessOf (getJ w "save")).isSome) then
+          epFresh := host :: epFresh
       -- C04: no cookie write ever moves the lifetime later / changes identity (history level, absolute time)
       for w in iwrites do
         match sessOf (getJ w "save") with
